@@ -192,6 +192,9 @@ class Resolver:
             return bp.extend(("field", n["n"]), txt)
         if k == "MCall":
             obj = n.get("obj")
+            if n.get("cconst") and not self.fn.ntype(n).startswith("const ") and not self.fn.ntype(n).endswith("*"):
+                # const member function yielding a non-const object: a value (temporary), not a sub-object of the receiver
+                return Path((("expr", id(n)),), text=render(n)[:80])
             bp = self._path(obj, depth + 1) if obj is not None else Path((("this",),), text="this")
             nm = last_comp(n.get("cfull") or n.get("callee") or "?")
             args = ", ".join(render(self.value(a)) for a in n.get("a", []))
@@ -282,32 +285,70 @@ def stmt_nodes_in_order(fn):
     return out
 
 
-def propagate(cfg, init, transfer, join=None):
-    """forward may-analysis: states are frozensets of hashable abstract states.
-    transfer(block id, state) -> iterable of successor states at block end (may report via closure).
-    Returns dict block id -> frozenset of states at block entry."""
-    inn = {b: frozenset() for b in cfg.blocks}
-    inn[cfg.entry] = frozenset([init])
+def assigned_decls(fn):
+    """decl ids of variables that are assigned / incremented somewhere in the function (not mere initialisation)"""
+    out = set()
+    for n in fn.nodes():
+        if n.get("k") == "Assign" and n["lhs"].get("k") == "Ref":
+            out.add(n["lhs"].get("d"))
+        elif n.get("k") == "Un" and n.get("op") in ("++", "--") and n["e"].get("k") == "Ref":
+            out.add(n["e"].get("d"))
+    return out
+
+
+def branch_fact(fn, cfg, bid, frozen_ok):
+    """(decl id, truth on succ[0]) if the block ends in an `if` over a plain (negated) bool variable that is never assigned"""
+    b = cfg.blocks[bid]
+    if b.get("term") != "IfStmt" or b.get("cond") is None or len(b.get("succ", [])) != 2:
+        return None
+    c = fn.by_id(b["cond"])
+    truth = True
+    while c is not None and c.get("k") == "Un" and c.get("op") == "!":
+        c = c["e"]
+        truth = not truth
+    if c is not None and c.get("k") == "Ref" and c.get("dk") in ("param", "local") and c.get("d") not in frozen_ok:
+        return (c["d"], truth)
+    return None
+
+
+def propagate(fn, init, step, edge_step=None):
+    """forward may-analysis over the CFG with path-sensitivity on never-assigned bool variables.
+    step(block id, user state) -> user state at block end (hashable); optional edge_step(block id, successor position,
+    state) -> state refines the state along one outgoing edge (position 0 = true edge of a branch).  Returns
+    (dict block -> set of (state, facts) at entry, dict block -> set of (state, facts) at exit)."""
+    cfg = fn.cfg
+    assigned = assigned_decls(fn)
+    inn = {b: set() for b in cfg.blocks}
+    out = {b: set() for b in cfg.blocks}
+    inn[cfg.entry].add((init, frozenset()))
     work = [cfg.entry]
-    seen_out = {}
+    done = {b: set() for b in cfg.blocks}
     while work:
         b = work.pop()
-        outs = set()
-        for s in inn[b]:
-            for t in transfer(b, s):
-                outs.add(t)
-        outs = frozenset(outs)
-        if seen_out.get(b) == outs and b != cfg.entry:
+        todo = inn[b] - done[b]
+        if not todo:
             continue
-        seen_out[b] = outs
-        for s in cfg.succ.get(b, []):
-            new = inn[s] | outs
-            if new != inn[s]:
-                inn[s] = new
-                work.append(s)
-            elif s not in seen_out:
-                work.append(s)
-    return inn
+        done[b] |= todo
+        bf = branch_fact(fn, cfg, b, assigned)
+        succs = cfg.blocks[b].get("succ", [])
+        for (s, facts) in todo:
+            t = step(b, s)
+            out[b].add((t, facts))
+            for k, sb in enumerate(succs):
+                if sb is None:
+                    continue
+                f2 = facts
+                if bf is not None and k < 2:
+                    d, truth = bf
+                    val = truth if k == 0 else (not truth)
+                    if (d, not val) in facts:
+                        continue          # infeasible: contradicts an earlier branch on the same variable
+                    f2 = facts | {(d, val)}
+                t2 = edge_step(b, k, t) if edge_step is not None else t
+                if (t2, f2) not in inn[sb]:
+                    inn[sb].add((t2, f2))
+                    work.append(sb)
+    return inn, out
 
 
 def enclosing_loops(fn, par, n):
@@ -328,3 +369,15 @@ def enclosing_stmt_chain(par, n):
         cur, slot = par[id(cur)]
         out.append((cur, slot))
     return out
+
+
+def innermost_loop_same(par, a, b):
+    """two nodes sit in the same innermost loop body"""
+    def inner(n):
+        cur = n
+        while id(cur) in par:
+            cur, slot = par[id(cur)]
+            if cur.get("k") in ("For", "While", "Do", "ForRange") and slot == "body":
+                return cur
+        return None
+    return inner(a) is inner(b)
